@@ -1,5 +1,6 @@
 """C01 — Datatype validation is sound, canonical and total."""
 import json
+import math
 import os
 
 from check import Result
@@ -241,6 +242,17 @@ def law_test(ctx, res, cases):
         z = rng.choice(fl) if r < 0.5 else dtcodec.f2bits(rng.choice(gen.SCALES + [1e-5, 5e-324, 1e300]))
         if rng.random() < 0.3:
             y = x if rng.random() < 0.3 else dtcodec.f2bits(__import__('math').nextafter(dtcodec.bits2f(x), rng.choice([-gen.INF, gen.INF])))
+        if rng.random() < 0.2:
+            # pointed at the hypothesis SnapIdem: x about k * scale with k around and beyond 2^53 (where the grid is finer than
+            # the float spacing), on and just off the grid
+            sc = rng.choice(gen.SCALES + [1e-5, 1e-7, 0.3, 1 / 3, 3.0, 123.456]) if rng.random() < 0.6 else \
+                math.ldexp(rng.random() + 0.5, rng.randint(-40, 40))
+            k = rng.randrange(2 ** 49, 2 ** rng.choice([52, 53, 54, 55, 60, 70, 200])) * rng.choice([1, -1])
+            try:
+                xv = float(k * sc) * (1 + rng.choice([0, 0, 1, -1, 3]) * 2.0 ** -52)
+            except OverflowError:
+                xv = 1.0
+            x, z = dtcodec.f2bits(xv), dtcodec.f2bits(sc)
         tuples.append([x, y, z, rng.choice(it), rng.choice(it)])
     ans = ctx.driver.batch([{'p': 'C01', 'k': 'laws', 'tuples': tuples[i:i + 2000]} for i in range(0, len(tuples), 2000)])
     fails = {}
@@ -255,11 +267,12 @@ def law_test(ctx, res, cases):
     res.count('float-law re-test (a test): tuples', len(tuples))
     res.count('float-law re-test (a test): distinct doubles', len(fl))
     res.count('float-law re-test (a test): laws violated', len(fails))
-    res.notes.append(f'float-law re-test (a test, not a proof): the laws of LawfulFloatOps evaluated with the Float instance on '
+    res.notes.append(f'float-law re-test (a test, not a proof): the laws of LawfulFloatOps and the hypothesis SnapIdem (snapping a '
+                     f'snapped value to the grid returns it; x any double of the run, scale z) evaluated with the Float instance on '
                      f'{len(tuples)} tuples over the {len(fl)} distinct doubles and {len(it)} integers of this run: '
                      f'{len(fails)} laws violated')
     for name, t in fails.items():
-        res.disagreements.append({'case': {'law': name, 'tuple': t}, 'model': 'law assumed for binary64',
+        res.disagreements.append({'case': {'law': name, 'tuple': t}, 'model': 'law / hypothesis assumed for binary64',
                                   'impl': 'fails on this tuple (bit patterns x, y, z; integers i, j)'})
 
 
